@@ -135,3 +135,35 @@ From FG Require PosImpl.
 Theorem C10_model_constants_dumped :
   PosImpl.GamePhaseMax = c_game_phase_max /\ Z.of_nat PosImpl.MaxHistory = c_max_moves.
 Proof. exact ConstTie.posimpl_constants_dumped. Qed.
+
+(* ---- appended by tools/mkprops.py: repetition corollaries ---- *)
+(** repetition corollaries: the answer is monotone in n, needs two earlier plies per repetition, is false on an empty history, and is bounded by the half-move clock in move-only histories *)
+From Coq Require Import NArith ZArith List Bool.
+From FG Require Import Geom Rules FenSpec PosImpl PosTabs PosProofsJ DrawCorollaries.
+Import ListNotations.
+
+Theorem C10_repetition_monotone :
+  forall (p : ipos) (m n : Z),
+         (1 <= m)%Z -> (m <= n)%Z -> check_repetitions p n = true -> check_repetitions p m = true.
+Proof. exact repetition_monotone. Qed.
+
+Theorem C10_repetition_needs_history :
+  forall (p : ipos) (n : Z),
+         (1 <= n)%Z -> check_repetitions p n = true -> (2 * n <= Z.of_nat (length (i_hist p)))%Z.
+Proof. exact repetition_needs_history. Qed.
+
+Theorem C10_repetition_fresh_position :
+  forall (p : ipos) (n : Z), (1 <= n)%Z -> i_hist p = [] -> check_repetitions p n = false.
+Proof. exact repetition_fresh_position. Qed.
+
+Theorem C10_repetition_clock_bound :
+  forall (p : ipos) (n : Z),
+         (1 <= n)%Z ->
+         (0 <= i_hmc p)%Z ->
+         chain (i_hmc p) (i_hist p) -> check_repetitions p n = true -> (2 * (n - 1) <= i_hmc p)%Z.
+Proof. exact repetition_clock_bound. Qed.
+
+Print Assumptions C10_repetition_monotone.
+Print Assumptions C10_repetition_needs_history.
+Print Assumptions C10_repetition_fresh_position.
+Print Assumptions C10_repetition_clock_bound.
